@@ -70,6 +70,28 @@ static void fill_payload(uint8_t *p, uint32_t L, uint32_t i, uint32_t k, int pay
 	(void)k;
 }
 
+int g_session_preprobe;
+static void preprobe(of_session_t *ses, const cfg_t *c)
+{
+	cfg_t bad[2] = { *c, *c }; char pb[32];
+	switch (c->codec) {
+	case 5: bad[0].r = 1; bad[1].r = c->r > 2 ? c->r - 1 : 1; if (c->k == 4 || c->k == 9 || c->k == 16) bad[1].r = 1; break;  /* r = 1 is never d + l; r - 1 is not for non-square k */
+	case 3: bad[0].N1 = c->r + 1 > 255 ? 2 : c->r + 1; bad[1].seed = 0; break;
+	default: bad[0].k = 0; bad[1].r = 0; break;
+	}
+	for (int i = 0; i < 2; i++) {
+		if (c->codec == 5 && bad[i].r != 1) {
+			/* only offer what cannot be a grid: no d*l = k with d + l = r */
+			int grid = 0; for (uint32_t d = 1; d <= bad[i].k; d++) if (bad[i].k % d == 0 && d + bad[i].k / d == bad[i].r) grid = 1;
+			if (grid) continue;
+		}
+		cfg_params(&bad[i], pb);
+		LIB_ENTER(); of_status_t st = of_set_fec_parameters(ses, (of_parameters_t *)pb); LIB_LEAVE();
+		if (st == OF_STATUS_OK) { char key[96]; snprintf(key, sizeof key, "accept-outside:%s:preprobe", codec_name(c)); if (ON("C09")) rep_viol(key, "k=%u r=%u N1=%u seed=%u accepted", bad[i].k, bad[i].r, bad[i].N1, bad[i].seed); rep_count("preprobe_parameter_sets_accepted", 1); }
+		else rep_count("refused_parameter_sets_offered_before_the_real_ones", 1);
+	}
+}
+
 int block_build(block_t *b, const cfg_t *c, int payload, rng_t *rng, uint64_t nullslot_mask, int early_release_after)
 {
 	memset(b, 0, sizeof *b);
@@ -80,6 +102,7 @@ int block_build(block_t *b, const cfg_t *c, int payload, rng_t *rng, uint64_t nu
 	LIB_ENTER(); st = of_create_codec_instance(&ses, (of_codec_id_t)c->codec, OF_ENCODER, 0); LIB_LEAVE();
 	rep_count("api_create", 1);
 	if (st != OF_STATUS_OK || !ses) { rep_viol("encoder-create-failed", "codec=%s status=%d", codec_name(c), st); return -1; }
+	if (g_session_preprobe) preprobe(ses, c);
 	cfg_params(c, pbuf);
 	LIB_ENTER(); st = of_set_fec_parameters(ses, (of_parameters_t *)pbuf); LIB_LEAVE();
 	rep_count("api_set_fec_parameters", 1);
@@ -403,6 +426,7 @@ void run_history(const block_t *b, const hist_t *hi, unsigned mon, hres_t *res)
 	rep_count("api_create", 1); res->lib_calls++;
 	if (st != OF_STATUS_OK || !H.ses) { rep_viol("decoder-create-failed", "codec=%s status=%d", H.cname, st); return; }
 	if (hi->stop == 1) goto release;
+	if (g_session_preprobe) preprobe(H.ses, c);
 	cfg_params(c, pbuf);
 	LIB_ENTER(); st = of_set_fec_parameters(H.ses, (of_parameters_t *)pbuf); LIB_LEAVE();
 	rep_count("api_set_fec_parameters", 1); res->lib_calls++;
